@@ -196,6 +196,34 @@ def body(C):
         # -- nested third_party_invite (m.room.member)
         nested_third_party_invite(C, E, v, red)
 
+    # ---- model validation: interpreter (concrete inputs) vs the native build through the public redact API
+    vecs = []
+    allkeys = sorted(set(R.TOP_LEVEL_ALL + R.TOP_LEVEL_BEFORE_V11 + sum([R.content_keys(1, t) + (R.content_keys(11, t) if R.content_keys(11, t) != '*' else []) for t in R.SPECIAL_TYPES if R.content_keys(1, t) != '*'], [])
+                         + ['invite', 'redacts', 'allow', 'join_authorised_via_users_server', 'unsigned', 'x', '', 'Type', 'content ', 'm.room.member']))
+    for v in ([1, 6, 9, 11] if C.tier == 'quick' else R.VERSIONS):
+        red, _ = per_version[v]
+        for kk in allkeys:
+            st = E.new_state(); rref = E.root_ref(st, red)
+            outs = E.run('canonical_json::is_event_key_retained', [rref, E.const_str(kk.encode())], st=st)
+            got = len(outs) == 1 and outs[0].kind == 'ret' and z3.is_true(outs[0].value)
+            nat = native_kept(C, {'probe': 'top', 'version': str(v), 'key_hex': kk.encode().hex()})
+            C.model_validation += 1
+            if kk not in ('type', 'content') and nat != got:
+                raise Broken(f'model validation: top-level key {kk!r} in v{v}: interpreter kept={got}, native kept={nat}')
+        for t in R.SPECIAL_TYPES + ['m.room.message']:
+            for kk in C.rng.sample(allkeys, 6) + (R.content_keys(v, t) if R.content_keys(v, t) != '*' else ['anything']):
+                if t == 'm.room.member' and kk == 'third_party_invite':
+                    continue
+                st = E.new_state(); rref = E.root_ref(st, red)
+                val = E.root_ref(st, Adt(CJV, 'String', [Obj('String', E.const_str(b'probe'))]))
+                res = content_keep(C, E, st, rref, E.const_str(t.encode()), E.const_str(kk.encode()), val)
+                got = len(res) == 1 and res[0][1] == 'keep' and z3.is_true(z3.simplify(res[0][2]))
+                nat = native_kept(C, {'probe': 'content', 'version': str(v), 'type_hex': t.encode().hex(), 'key_hex': kk.encode().hex()})
+                C.model_validation += 1
+                if nat != got:
+                    raise Broken(f'model validation: content key {kk!r} of {t} in v{v}: interpreter kept={got}, native kept={nat}')
+    C.absorb(E)
+
     # ---- rule-parametric: every assignment of the 8 booleans, predicates agree with the documented meaning of each field
     bools = {n: z3.Bool('rule_' + n) for n in fnames}
     red = Adt('room_version_rules::RedactionRules', None, [bools[n] for n in fnames])
